@@ -83,6 +83,10 @@ def extend(arr: List[Any], length: int) -> List[Any]:
 
 
 def extend_all(lists: List[List[Any]]) -> List[List[Any]]:
+    if any(len(part) == 0 for part in lists):
+        # A part without variants (recursion cut-off in `generate_for_reference`):
+        # no combined variant exists.
+        return [[] for _ in lists]
     max_len = max(len(part) for part in lists)
     max_len = min(1000, max_len)
     return [extend(part, max_len) for part in lists]
